@@ -59,7 +59,26 @@ def _skeleton(kind):
     t.add_network_service(name='br1', nstype=ServiceType.L2Bridge, interfaces=[f])
     n3 = t.add_node(name='n3', site='RENC', ntype=NodeType.VM)
     n3.add_storage(name='vol1', labels=Labels(local_name='v'))
+    if kind == 'S3':
+        return t
+    # S4: + an FPGA with a connected port, a connected sub-interface, a link with three ends, two peered services
+    n3.add_component(name='fpga1', ctype=ComponentType.FPGA, model='Xilinx-U280')
+    fp = n3.components['fpga1'].interface_list
+    t.network_services['br1'].connect_interface(fp[0])
+    v1 = [k for k in p2.interface_list if k.name == 'v1'][0]
+    t.network_services['br1'].connect_interface(v1)
+    t.add_link(name='lan3', ltype=LinkType.L2Path, interfaces=[fp[1], n2.components['nic3'].interface_list[1], b2_free(t)])
+    f1 = t.add_network_service(name='fab1', nstype=ServiceType.L3VPN)
+    f2 = t.add_network_service(name='fab2', nstype=ServiceType.L3VPN)
+    f1.peer(f2, labels=Labels(local_name='peer'))
     return t
+
+
+def b2_free(t):
+    """an unconnected shared port for the third end of lan3: a fresh SharedNIC on n3"""
+    n3 = t.nodes['n3']
+    n3.add_component(name='nic4', ctype=ComponentType.SharedNIC, model='ConnectX-6')
+    return n3.components['nic4'].interface_list[0]
 
 
 def skeleton(kind):
